@@ -77,12 +77,15 @@ class Ctx:
             return total
         nw = min(self.workers, len(items))
         if nw <= 1:
-            return total.merge(fn(items))
+            r = _guard(fn, self.pid)(items)
+            if isinstance(r, _WorkerCrash):
+                raise HarnessError("worker crashed:\n" + r.tb)
+            return total.merge(r)
         if chunk is None:
             chunk = max(1, len(items) // (nw * 4))
         chunks = [items[i : i + chunk] for i in range(0, len(items), chunk)]
         with mp.get_context("fork").Pool(nw) as pool:
-            for t in pool.imap_unordered(_guard(fn), chunks):
+            for t in pool.imap_unordered(_guard(fn, self.pid), chunks):
                 if isinstance(t, _WorkerCrash):
                     raise HarnessError("worker crashed:\n" + t.tb)
                 total.merge(t)
@@ -94,14 +97,40 @@ class _WorkerCrash:
         self.tb = tb
 
 
+def library_exception_tally(pid, exc):
+    """An exception that escaped a check's worker.  If it was RAISED INSIDE THE LIBRARY under test (innermost frame in a
+    file under $VERIF_REPO) while the harness was doing something that works on the pinned tree (building a valid
+    baseline, converting a clean document, ...), that is a failure of valid use and is reported as a violation of the
+    property being checked, keyed by exception type and raising function; anything else is a harness crash."""
+    repo = os.path.realpath(os.environ.get("VERIF_REPO", "/repo")) + os.sep
+    tb = exc.__traceback__
+    last = None
+    while tb is not None:
+        last = tb
+        tb = tb.tb_next
+    if last is None:
+        return None
+    fn = os.path.realpath(last.tb_frame.f_code.co_filename)
+    if not fn.startswith(repo) or isinstance(exc, (HarnessError, KeyboardInterrupt, MemoryError)):
+        return None
+    t = Tally()
+    where = f"{os.path.relpath(fn, repo)}:{last.tb_frame.f_code.co_name}"
+    t.fail(f"{pid}|valid-use-raises|{type(exc).__name__}|{where}", {"traceback": traceback.format_exc()[-1500:]}, f"{type(exc).__name__}: {str(exc)[:200]} (raised in {where})")
+    return t
+
+
 class _guard:
-    def __init__(self, fn):
+    def __init__(self, fn, pid="C??"):
         self.fn = fn
+        self.pid = pid
 
     def __call__(self, chunk):
         try:
             return self.fn(chunk)
-        except BaseException:
+        except BaseException as e:
+            t = library_exception_tally(self.pid, e)
+            if t is not None:
+                return t
             return _WorkerCrash(traceback.format_exc())
 
 
@@ -241,3 +270,10 @@ def touch_bases(cls):
                     getattr(base, prop)
                 except Exception:
                     pass
+
+
+def vacuous(tally, msg):
+    """vacuity guard: a harness self-check, raised only when nothing failed - a run that found violations is allowed to
+    have explored less than usual (e.g. because valid baselines could not be built, which is itself reported)"""
+    if not tally.fails:
+        raise HarnessError(msg)
